@@ -79,6 +79,15 @@ CHECKS['C17'] = dict(
    technique='Coq proof (exact {:.p} formatting of binary64 in integer arithmetic with its half-to-even rounding contract; string-level round trips of Display through the parser models for default and every precision) + exact text correspondence with Rust formatting + read-back oracle through the real parsers',
    text='10 theorems, none partial: c17_fmt_prec_exact/sign and c17_precision_number (printed decimals read back within 1/2*10^-p), c17_simple_default and c17_inter_default/term (identical coefficients and exponents under H1/H2 on the shortest-float printer, which are measured on every printed float), c17_precision_simple / c17_precision_inter (every precision), c17_model_string (to_polynomial_string), zero polynomial cases; model text equals Rust text exactly on all cases incl. ties, subnormals, -0.0',
    note=COMMON_NOTE + '; H1/H2 about Rust\'s shortest float formatting are Section hypotheses measured at run time', ref='DESIGN.md §5 C17')
+
+CHECKS['C09'] = dict(
+   technique='Coq proof (right-looking invariant with the stored Schur complement: L U = P A, shapes, |l_ij| <= 1, pivots above the relative threshold; left/right null vectors are refused; Doolittle LU reconstructs A and errs exactly on a singular leading block) + bit-for-bit correspondence on all container types + exact determinant/minor oracle',
+   text='11 theorems in exact arithmetic for every n: c09_plu_shape, c09_plu_reconstruct, c09_plu_pivots (threshold n*eps*max|a| re-derived from the code), c09_plu_singular(_right), c09_lu_reconstruct, c09_lu_pivots, c09_lu_zero_minor(_right), c09_lu_err_iff_minor (full characterisation), c09_nonsquare; exhaustive 2x2/3x3 small-integer matrices (thorough: all 1.95M 3x3 with entries -2..2), random/permutation-heavy/scaled/rank-deficient up to 10x10',
+   note=COMMON_NOTE + '; the n*eps*|L||U| envelope, finiteness and must-factor are measured by the oracle; one known finding (F21: rounding residue lets some exactly singular -2..2 matrices of order >= 4 through)', ref='DESIGN.md §5 C09')
+CHECKS['C10'] = dict(
+   technique='Coq proof (inverse on top of the PLU and substitution models: A B = I and B A = I whenever a value is returned; error cases; uniqueness form of the involution) + bit-for-bit correspondence + exact rational inverse oracle',
+   text='4 theorems: c10_right_left (both products are the identity, for every pivoting pattern incl. non-symmetric permutations), c10_errors (non-square, singular via null vectors, 0x0 is Ok, never a panic), c10_involutive_partial (if both inversions succeed the second returns A entrywise) with a proved counterexample showing the relative pivot threshold can refuse the second inversion; exhaustive small-integer 2x2/3x3, cyclic permutations, i32 and f64 elements, matrices scaled by 2^+-60',
+   note=COMMON_NOTE + '; rounding-scaled residual bounds and the round trip for well-conditioned A are measured by the oracle; one known finding (F21)', ref='DESIGN.md §5 C10')
 NOT_APPLICABLE = {}
 ALL = ['C%02d' % i for i in range(1, 21)]
 PENDING_REASON = 'not claimed yet in this revision: model/proof under construction (see DESIGN.md §9); no check is registered so nothing is asserted'
